@@ -1,5 +1,5 @@
 (* Properties_C18.v — C18: comparison operators form one coherent relation that agrees with the values. *)
-From Coq Require Import NArith ZArith List Bool.
+From Coq Require Import NArith ZArith List Bool Sorting.Permutation.
 From Coq Require Import Floats.SpecFloat.
 From AJ Require Import Model.Base Model.FloatModel Model.Value Model.Compare Proofs.CompareProofs Proofs.CompareMore.
 
@@ -127,6 +127,24 @@ Theorem C18_integer_vs_double_as_doubles : forall z d,
   op_gt (JInt z) (JDouble d) = f_gt (f_of_Z F64 z) d.
 Proof. exact int_vs_double. Qed.
 Print Assumptions C18_integer_vs_double_as_doubles.
+
+(* objects compare member-wise regardless of order: a == b iff the member counts agree and every member of a
+   has an equal value under its key in b (members_match, Proofs/CompareMore.v; no hypothesis on keys); the
+   order of the members of either operand is irrelevant (for the right one: keys not repeated) *)
+Theorem C18_objects_memberwise : forall la lb,
+  op_eq (JObj la) (JObj lb) = members_match la lb.
+Proof. exact objects_memberwise. Qed.
+Print Assumptions C18_objects_memberwise.
+
+Theorem C18_objects_order_of_left_irrelevant : forall la la' lb,
+  Permutation la la' -> op_eq (JObj la) (JObj lb) = op_eq (JObj la') (JObj lb).
+Proof. exact objects_order_of_left_irrelevant. Qed.
+Print Assumptions C18_objects_order_of_left_irrelevant.
+
+Theorem C18_objects_order_of_right_irrelevant : forall la lb lb',
+  NoDup (map fst lb) -> Permutation lb lb' -> op_eq (JObj la) (JObj lb) = op_eq (JObj la) (JObj lb').
+Proof. exact objects_order_of_right_irrelevant. Qed.
+Print Assumptions C18_objects_order_of_right_irrelevant.
 
 (* the full statement (without wf) is FALSE of the faithful model, with this witness — the known finding *)
 Theorem C18_symmetry_needs_distinct_keys :
